@@ -305,19 +305,42 @@ pub fn verif_get_index_of_line_char(source: &str, line_char: LineChar) -> u32 {
 
 fn get_index_of_line_char(source: &str, line_char: LineChar) -> u32 {
     let mut remaining_line_breaks = line_char.line;
-    for (index, char) in source.chars().enumerate() {
-        if char == '\n' {
-            remaining_line_breaks -= 1;
+    for (byte_index, char) in source.char_indices() {
+        if remaining_line_breaks == 0 {
+            // The position is on the first line.
+            // Why were we off by one to begin with? This is a bad fix!
+            return byte_index as u32
+                + utf16_offset_to_byte_offset(&source[byte_index..], line_char.character)
+                + 1;
         }
 
-        if remaining_line_breaks == 0 {
-            // Why were we off by one to begin with? This is a bad fix!
-            return index as u32 + line_char.character + 1;
+        if char == '\n' {
+            remaining_line_breaks -= 1;
+
+            if remaining_line_breaks == 0 {
+                let line_start = byte_index + 1;
+                return line_start as u32
+                    + utf16_offset_to_byte_offset(&source[line_start..], line_char.character);
+            }
         }
     }
 
     // Should we panic?
     source.len() as u32
+}
+
+/// LSP columns count UTF-16 code units, whereas spans are byte offsets.
+fn utf16_offset_to_byte_offset(text: &str, mut utf16_units: u32) -> u32 {
+    let mut bytes = 0;
+    for char in text.chars() {
+        let units = char.len_utf16() as u32;
+        if utf16_units < units {
+            break;
+        }
+        utf16_units -= units;
+        bytes += char.len_utf8() as u32;
+    }
+    bytes + utf16_units
 }
 
 fn hover_text_for_selectable(
